@@ -49,6 +49,8 @@ class FakeSocket:
         self.stream = None
         self.server = None
         self.send_after_close = 0
+        self.broken = False
+        self.fault_choices = 0
 
     def connect(self, addr):
         self.addr = addr
@@ -63,11 +65,39 @@ class FakeSocket:
         if self.closed:
             self.send_after_close += 1
             raise OSError(9, 'Bad file descriptor')
+        if self._write_fault():
+            raise BrokenPipeError(32, 'Broken pipe')
         items = list(bytes_items(data))
         self.sent += items
         if self.server is not None:
             self.server.on_client_bytes(self)
         return len(items)
+
+    def _write_fault(self):
+        """E-socket, write side: once the server has closed (it has sent the
+        last byte it is going to send), a send() may fail with EPIPE - the
+        kernel decides - and a connection that failed once stays failed.
+        Whether it fails is an input."""
+        w = self.world
+        if not w.write_faults or self.stream is None:
+            return False
+        if self.broken:
+            return True
+        cut = self.stream.cut
+        if cut is None:
+            server_done = self.peer_closed
+        elif isinstance(cut, int):
+            server_done = len(self.inbox) >= cut
+        else:
+            server_done = builtins.bool(mkbool(
+                z3.UGE(z3.BitVecVal(len(self.inbox), cut.size()), cut)))
+        if not server_done or self.fault_choices >= w.write_faults:
+            return False
+        self.fault_choices += 1
+        if w.ctx.bool('epipe%d_%d' % (self.index, self.fault_choices)):
+            self.broken = True
+            return True
+        return False
 
     def recv(self, n):
         return self.stream.read(n)
@@ -250,9 +280,11 @@ class JsonModel:
 class World:
     """owns the sockets, the scripted server factory and the thread queue"""
 
-    def __init__(self, ctx, server_factory, refuse=(), segment=False):
+    def __init__(self, ctx, server_factory, refuse=(), segment=False,
+                 write_faults=0):
         self.ctx = ctx
         self.segment = segment
+        self.write_faults = write_faults    # symbolic EPIPE choices / socket
         self.sockets = []
         self.started = []
         self.ran = []
@@ -381,7 +413,30 @@ def packet_frame(packet, context, zl=None, threshold=None):
     """serialise a server->client packet with pyCraft's own writer (C01
     checks that writer against the reference frame format)"""
     from minecraft.networking.packets import PacketBuffer
-    b = PacketBuffer()
+    import minecraft.networking.packets.packet as pk
+    from ref import wire
     packet.context = context
+    if threshold is not None:
+        # A server compresses a frame whose size is >= the threshold (the
+        # vanilla rule); pyCraft's writer only when it is > the threshold.
+        # A client has to accept both, so at size == threshold the server's
+        # choice is an input.
+        b0 = PacketBuffer()
+        packet.write(b0, None)
+        raw = list(bytes_items(b0.get_writable()))
+        for k in (1, 2, 3):
+            if len(wire.leb128_const(len(raw) - k)) == k:
+                break
+        body = raw[k:]
+        ctx = Ctx.cur
+        if bool(threshold == len(body)):
+            n = ctx.env['at_threshold'] = ctx.env.get('at_threshold', -1) + 1
+            if ctx.bool('compress_at_threshold_%d' % n):
+                z = list(bytes_items(pk.compress(
+                    SBytes(body).fold() if ctx.mode == 'sym'
+                    else bytes(body))))
+                size = wire.leb128_const(len(body))
+                return wire.leb128_const(len(size) + len(z)) + size + z
+    b = PacketBuffer()
     packet.write(b, threshold)
     return list(bytes_items(b.get_writable()))
